@@ -333,6 +333,17 @@ func driveHelpers(args []string) error {
 			}
 		}
 	}
+	// an enumeration without members admits nothing
+	for _, d := range []interface{}{"a", 1, nil, []interface{}{}, true} {
+		for _, enumList := range []interface{}{[]interface{}{}, []string{}, []int64{}, []interface{}{"a", 1}[:0]} {
+			d, enumList := d, enumList
+			emit("Enum", enc.M{"data": goValue(d), "enum": []interface{}{}}, enc.M{"data": repr(d), "enum": repr(enumList)}, func() bool { return validate.Enum("p", "q", d, enumList) != nil }, func() string { return repr(d) + repr(enumList) + "empty" })
+			for _, cs := range []bool{true, false} {
+				cs := cs
+				emit("EnumCase", enc.M{"data": goValue(d), "enum": []interface{}{}, "cs": cs}, enc.M{"data": repr(d), "enum": repr(enumList), "caseSensitive": cs}, func() bool { return validate.EnumCase("p", "q", d, enumList, cs) != nil }, func() string { return repr(d) + repr(enumList) + fmt.Sprint(cs) + "empty" })
+			}
+		}
+	}
 	// EnumCase with named string types on either side (kind string: the comparison is the one of plain strings)
 	for _, d := range []interface{}{namedStr("Ab"), namedStr("ab"), "AB", "ab", namedStr(""), "ΟΔΟΣ", "οδος", "οδοσ", "ſecret", "SECRET", "Kelvin", "kelvin"} {
 		for _, enumList := range [][]interface{}{{namedStr("ab")}, {"ab"}, {namedStr("AB"), "x"}, {"x", namedStr("aB")}, {namedStr("")},
